@@ -26,6 +26,7 @@ func (n Nondeterminism) Error() string { return "HARNESS-NONDETERMINISM: " + n.M
 
 // Ctx is the chooser of one execution.
 type Ctx struct {
+	lenient bool
 	prefix []int
 	expect []Point // points of the parent execution (for divergence detection), may be shorter
 	Points []Point
@@ -46,6 +47,9 @@ func (c *Ctx) ChooseCost(n int, kind vrt.Kind, label string, altCost int) int {
 	ch := 0
 	if i < len(c.prefix) {
 		ch = c.prefix[i]
+		if ch >= n && c.lenient {
+			ch = ch % n
+		}
 		if ch >= n {
 			panic(Nondeterminism{fmt.Sprintf("choice %d out of range %d at point %d (%s)", ch, n, i, label)})
 		}
@@ -106,6 +110,18 @@ func Explore(opt Options, body func(c *Ctx)) Stats {
 // Replay runs body once with the given answers (then zeros).
 func Replay(choices []int, body func(c *Ctx)) *Ctx {
 	c := &Ctx{prefix: choices}
+	prev := vrt.Active
+	vrt.Active = c
+	defer func() { vrt.Active = prev }()
+	body(c)
+	return c
+}
+
+// ReplayLenient is Replay for a body that may meet different choice points
+// than the execution the answers come from (a differential partner): answers
+// are reduced modulo the number of alternatives instead of failing.
+func ReplayLenient(choices []int, body func(c *Ctx)) *Ctx {
+	c := &Ctx{prefix: choices, lenient: true}
 	prev := vrt.Active
 	vrt.Active = c
 	defer func() { vrt.Active = prev }()
